@@ -104,6 +104,11 @@ theorem window_filter (start stop : Int) (v : Variant) :
     variants_WriteVariants start stop v.pos = [inWindow start stop v] := by
   simp [variants_WriteVariants, inWindow]
 
+/-- the aggregating writer skips exactly the records outside the window -/
+theorem agg_window_filter (start stop : Int) (v : Variant) :
+    variants_AggregateWriteVariants start stop v.pos = [!inWindow start stop v] := by
+  simp [variants_AggregateWriteVariants, inWindow]
+
 /-- which SAM records the two readers skip (unmapped: bit 4; secondary: bit 256), translated from the source: the model's
 `isSkipped` on the record's flag, for every flag value -/
 theorem sam_skip (r : SamRec) :
